@@ -51,7 +51,11 @@ META = {
              "histories: lists holding one object several times, mutated by slice / extended-slice / "
              "whole-list assignments and dict.update() whose replacement overlaps the removed items "
              "with different multiplicities, interleaved with add/remove of expressions that go through "
-             "the items; (5) a 4-thread add/remove stress.  distinct_nontrivial counts distinct "
+             "the items; the process-wide UI handler is part of every history (starts as none / "
+             "queueing handler A / handler B, is installed, replaced or removed between registration "
+             "and unregistration; 'same' and 'ui' registrations of one handler/expression are mixed in "
+             "every state; an enumerated stratum covers all 9 (state at registration, state at "
+             "unregistration) pairs); (5) a 4-thread add/remove stress.  distinct_nontrivial counts distinct "
              "(stratum, op, expression shape, handler kind, dispatch, count class, outcome class, "
              "failure-position class) signatures of steps in which a registration changed, a call was "
              "observed, an exception was raised or an object died."),
@@ -64,7 +68,9 @@ META = {
                   "weak_deaths_checked": 400, "gc_threshold_cases": 120, "thread_stress_runs": 1,
                   "mutations": 1200, "count_ge2_probes": 2000, "duplicate_histories": 200,
                   "multiplicity_changing_events_while_registered": 150, "stale_owner_cycles": 600,
-                  "stale_owner_address_reused": 150},
+                  "stale_owner_address_reused": 150, "ui_state_cases": 150,
+                  "ui_handler_switches_while_ui_registered": 300, "ui_no_handler_reports": 700,
+                  "histories_starting_without_ui_handler": 250},
         "thorough": {"evaluations": 5000000, "probe_checks": 5000000, "adds_ok": 80000,
                      "removes_ok": 80000, "failed_adds_checked": 20000,
                      "failed_adds_held_first_path": 10000, "failed_removes_checked": 40000,
@@ -73,7 +79,9 @@ META = {
                      "weak_deaths_checked": 10000, "gc_threshold_cases": 2500,
                      "thread_stress_runs": 8, "mutations": 40000, "count_ge2_probes": 80000,
                      "duplicate_histories": 6000, "multiplicity_changing_events_while_registered": 4000,
-                     "stale_owner_cycles": 12000, "stale_owner_address_reused": 3000},
+                     "stale_owner_cycles": 12000, "stale_owner_address_reused": 3000,
+                     "ui_state_cases": 150, "ui_handler_switches_while_ui_registered": 10000,
+                     "ui_no_handler_reports": 25000, "histories_starting_without_ui_handler": 8000},
     },
     "exhaustive_parts": ("failure position: every node index of the walk for trees of depth 1..4 x "
                          "fan-out 1..3 (quick: depth 4 only with fan-out <= 2); multi-graph "
@@ -86,6 +94,11 @@ META = {
         "two different graphs of one handler/dispatch that match the same observable may deliver "
         "one call or one call each (between 1 and the number of matching graphs); only the same "
         "graph registered n times is required to deliver exactly one",
+        "dispatch='ui' with no UI handler installed is modelled as the unchanged tree behaves: on the "
+        "main thread the handler runs immediately; off the main thread the dispatcher raises "
+        "RuntimeError, which is reported once per listening 'ui' registration through the observe "
+        "exception channel and the handler is not run; registration identity never depends on the "
+        "UI handler",
         "thread stress: final-state oracle only (census, absence of exceptions); preemptive "
         "interleavings are sampled by the OS scheduler, reach is limited",
     ],
@@ -486,11 +499,20 @@ class Channels:
     def _ui(self, handler, *args, **kw):
         self.queue.append((handler, args, kw))
 
+    def _ui2(self, handler, *args, **kw):
+        """A second, different UI handler (a toolkit replacing another)."""
+        self.queue.append((handler, args, kw))
+
+    def set_ui(self, state):
+        """'A' / 'B': one of the two queueing harness handlers; 'none': no UI handler."""
+        trait_notifiers.set_ui_handler({"A": self._ui, "B": self._ui2, "none": None}[state])
+        self.ui_state = state
+
     def install(self):
         oapi.push_exception_handler(handler=self._obs, reraise_exceptions=False)
         legacy_push(handler=self._legacy, reraise_exceptions=False, main=True)
         self.prev_ui = trait_notifiers.get_ui_handler()
-        trait_notifiers.set_ui_handler(self._ui)
+        self.set_ui("A")
 
     def restore(self):
         trait_notifiers.set_ui_handler(self.prev_ui)
@@ -787,12 +809,22 @@ class Session:
         bw = list(rec.worker_calls)
         raised = None
         queued = 0
+        no_ui = via_thread and CH.ui_state == "none"
+        reports = 0
         if via_thread:
             raised = WORKER.call(action)
             queued = len(CH.queue)
             ctx.count("ui_queued_calls", queued)
             ctx.count("thread_probes")
             CH.drain()
+            if no_ui:
+                # dispatch='ui' off the main thread without a UI handler: the dispatcher raises
+                # RuntimeError, which goes to the observe exception channel; the handler is not run
+                keep = [c for c in CH.captured if c[:2] != ("observe", "RuntimeError")]
+                reports = len(CH.captured) - len(keep)
+                CH.captured[:] = keep
+                ctx.count("thread_probes_without_ui_handler")
+                ctx.count("ui_no_handler_reports", reports)
         else:
             try:
                 action()
@@ -809,6 +841,8 @@ class Session:
             got = rec.calls[hi] - b[hi]
             gotw = rec.worker_calls[hi] - bw[hi]
             slo, shi, ulo, uhi, mx = exp[hi]
+            if no_ui:
+                ulo = uhi = 0                 # reported through the exception channel instead
             lo, hi_ = slo + ulo, shi + uhi
             if got:
                 anycall = True
@@ -835,15 +869,35 @@ class Session:
         if via_thread:
             want_lo = sum(e[2] for e in exp)
             want_hi = sum(e[3] for e in exp)
-            if not (want_lo <= queued <= want_hi):
+            if no_ui:
+                if queued or not (want_lo <= reports <= want_hi):
+                    self.trace.append((kind, what))
+                    self.fail("ui/no-handler/report-count-mismatch",
+                              "%s from a worker thread with no UI handler installed: %d call(s) queued, "
+                              "%d RuntimeError report(s) on the observe exception channel, model expects "
+                              "0 queued and %d..%d reports (one per 'ui' registration listening)"
+                              % (what, queued, reports, want_lo, want_hi))
+            elif not (want_lo <= queued <= want_hi):
                 self.trace.append((kind, what))
                 self.fail("ui/queued-count-mismatch",
                           "%s from a worker thread queued %d UI call(s), model expects %d..%d"
                           % (what, queued, want_lo, want_hi))
         if anycall:
-            ctx.sig(self.stratum, "probe", kind, via_thread,
+            ctx.sig(self.stratum, "probe", kind, via_thread, CH.ui_state if via_thread else "-",
                     tuple((min(e[0], 2), min(e[2], 2), min(e[4], 3)) for e in exp))
         self.check_channels(what)
+
+    def switch_ui(self, state):
+        """Install / replace / remove the process-wide UI handler (part of the history)."""
+        ctx = self.ctx
+        prev = CH.ui_state
+        self.trace.append(("set_ui_handler", {"A": "handler A", "B": "handler B", "none": None}[state]))
+        CH.set_ui(state)
+        n_ui = sum(n for (ri, hi, gk, d), n in self.counts.items() if d == "ui")
+        ctx.count("ui_handler_switches")
+        if n_ui:
+            ctx.count("ui_handler_switches_while_ui_registered")
+        ctx.sig(self.stratum, "set_ui_handler", prev, state, min(n_ui, 2))
 
     def probe_all(self, rng=None, objs=None):
         for o in (self.objs if objs is None else objs):
@@ -1136,8 +1190,15 @@ def main_history(ctx, h, OK, BAD, dup=False):
         through = [e for e in OK if any(k in e.shape for k in ("I", "L", "D"))]
         mine = rng.sample(through, 3) + [rng.choice(through)]
     dropped_root = dropped_owner = False
+    start_ui = rng.choice(["A", "A", "none", "none", "B"])
+    if start_ui != "A":
+        S.switch_ui(start_ui)
+        if start_ui == "none":
+            ctx.count("histories_starting_without_ui_handler")
     for step in range(nsteps):
         r = rng.random()
+        if rng.random() < 0.07:               # a toolkit installs / replaces / removes its handler
+            S.switch_ui(rng.choice([x for x in ("A", "B", "none", "none") if x != CH.ui_state]))
         if dup and r >= 0.90:                 # no gc / drop steps here: more mutations instead
             r = 0.75
         if dup and 0.34 <= r < 0.44:
@@ -1982,6 +2043,42 @@ def literal_counted(ctx, n, hi, disp, entry):
     ctx.count("literal_counted_cases")
 
 
+def ui_state_case(ctx, start, mid, n, mix, hi, entry):
+    """Register under UI-handler state `start` (dispatch 'ui', or 'same' and 'ui' of one handler and
+    expression), switch to `mid`, unregister; counts are per (handler, graph, dispatch) whatever the
+    process-wide UI handler is at either moment."""
+    rng = ctx.rng("U", start, mid, n, mix, hi, entry.name)
+    objs, layers, rank = small_graph(rng)
+    S = Session(ctx, "ui-state", objs, layers[0], extra={"ui_at_registration": start, "ui_at_unregistration": mid})
+    S.set_base()
+    if start != "A":
+        S.switch_ui(start)
+    order = ["ui"] * n + (["same"] * n if mix == "both" else [])
+    rng.shuffle(order)
+    for d in order:
+        S.add(0, hi, entry, d)
+    S.probe_all(rng)
+    if mid != start:
+        S.switch_ui(mid)
+    S.probe_all(rng)
+    first = "ui" if (mix == "ui" or rng.random() < 0.5) else "same"
+    for _ in range(n):
+        S.remove(0, hi, entry, first)
+    S.probe_all(rng)
+    S.remove(0, hi, entry, first)              # count 0 for this dispatch: must raise, change nothing
+    S.probe_all()
+    if mix == "both":
+        other = "same" if first == "ui" else "ui"
+        if rng.random() < 0.5 and CH.ui_state != start:
+            S.switch_ui(start)
+        for _ in range(n):
+            S.remove(0, hi, entry, other)
+        S.probe_all()
+        S.remove(0, hi, entry, other)
+    S.probe_all(rng)
+    ctx.count("ui_state_cases")
+
+
 def canonical_failing(ctx, which):
     rng = ctx.rng("Kf", which)
     if which == "sibling":
@@ -2017,6 +2114,7 @@ def guarded(ctx, fn, *a, gc_hard=False):
     if gc_hard:
         gc.set_threshold(1, 1, 1)
         ctx.count("gc_threshold_cases")
+    CH.set_ui("A")
     try:
         fn(ctx, *a)
     except Stop:
@@ -2024,6 +2122,7 @@ def guarded(ctx, fn, *a, gc_hard=False):
     finally:
         if gc_hard:
             gc.set_threshold(*old)
+        CH.set_ui("A")
         del CH.queue[:]
         del CH.captured[:]
 
@@ -2069,6 +2168,28 @@ def _run(ctx):
                             "expression": "children.items.value",
                             "history": ["observe x2", "probe every leaf trait after each", "remove x2",
                                         "census == initial", "remove once more -> NotifierNotFound"]})
+        finally:
+            ctx.end()
+    # ---- (0b) the process-wide UI handler as part of the history -------------------------
+    uis = ("none", "A", "B")
+    lit_ui = [e for e in lit if e.name in ("value", "child.value", "children.items.value",
+                                           "[child,children.items].value", "value, value")]
+    for k, (start, mid, mix) in enumerate(itertools.product(uis, uis, ("ui", "both"))):
+        if not ctx.mine(k):
+            continue
+        if not ctx.begin("U:%s:%s:%s" % (start, mid, mix)):
+            continue
+        try:
+            for n in (1, 2):
+                for hi in range(3):
+                    for e in lit_ui:
+                        guarded(ctx, ui_state_case, start, mid, n, mix, hi, e)
+            if start == "none" and mid == "A" and mix == "ui":
+                ctx.sample({"stratum": "ui-state", "history": [
+                    "set_ui_handler(None)", "observe(h, 'child.value', dispatch='ui') x2",
+                    "probe from main and worker thread", "set_ui_handler(queueing handler)", "probe",
+                    "observe(..., dispatch='ui', remove=True) x2", "census == initial",
+                    "once more -> NotifierNotFound"]})
         finally:
             ctx.end()
     # ---- (1) random histories ------------------------------------------------
